@@ -1,0 +1,355 @@
+//go:build verif
+
+package limit
+
+import (
+	"context"
+	"encoding/json"
+	"fmt"
+	"strconv"
+	"sync"
+	"sync/atomic"
+	"testing"
+	"time"
+
+	"github.com/alicebob/miniredis/v2"
+	"github.com/alicebob/miniredis/v2/server"
+	"github.com/gotid/god/internal/verifdrv"
+	"github.com/gotid/god/lib/store/redis"
+)
+
+type verifLim struct {
+	Period int  `json:"period"`
+	Quota  int  `json:"quota"`
+	Align  bool `json:"align"`
+}
+
+type verifOp struct {
+	Op   string `json:"op"` // take | tick | conc | allow | fault
+	Lim  int    `json:"lim"`
+	Key  int    `json:"key"`
+	Down bool   `json:"down"` // take: every command answers with an error
+	Ms   int64  `json:"ms"`   // tick
+	G    int    `json:"g"`    // conc
+	N    int    `json:"n"`    // allow / conc
+	Ctx  int    `json:"ctx"`  // allow: 0 background, 1 cancelled, 2 deadline exceeded
+	Skew int64  `json:"skew"` // allow: caller clock minus server clock, ms
+	Eval bool   `json:"eval"` // fault: EVAL answered
+	Ping bool   `json:"ping"` // fault: PING answered
+	Hard bool   `json:"hard"` // fault with eval=ping=false: close the listener instead of error replies
+}
+
+type verifCase struct {
+	Kind  string     `json:"kind"` // period | token
+	Lims  []verifLim `json:"lims"`
+	Rate  int        `json:"rate"`
+	Burst int        `json:"burst"`
+	T0    int64      `json:"t0"` // start of the clock, unix ms
+	Ops   []verifOp  `json:"ops"`
+}
+
+// verifServer is one miniredis per driver process with a switchable fault mode.
+type verifServer struct {
+	s       *miniredis.Miniredis
+	closed  bool
+	evalUp  bool
+	pingUp  bool
+	caseSeq int
+	stuck   bool
+}
+
+func (v *verifServer) apply() {
+	if v.closed {
+		return
+	}
+	evalUp, pingUp := v.evalUp, v.pingUp
+	if evalUp && pingUp {
+		v.s.Server().SetPreHook(nil)
+		return
+	}
+	v.s.Server().SetPreHook(server.Hook(func(c *server.Peer, cmd string, args ...string) bool {
+		switch cmd {
+		case "PING":
+			if !pingUp {
+				c.WriteError("ERR verif outage")
+				return true
+			}
+		case "EVAL", "EVALSHA":
+			if !evalUp {
+				c.WriteError("ERR verif outage")
+				return true
+			}
+		}
+		return false
+	}))
+}
+
+func (v *verifServer) set(evalUp, pingUp, hard bool) {
+	wantClosed := hard && !evalUp && !pingUp
+	v.evalUp, v.pingUp = evalUp, pingUp
+	if wantClosed {
+		if !v.closed {
+			v.s.Close()
+			v.closed = true
+		}
+		return
+	}
+	if v.closed {
+		if err := v.s.Restart(); err != nil {
+			panic(err)
+		}
+		v.closed = false
+		v.apply()
+		v.drain()
+		return
+	}
+	v.apply()
+}
+
+// drain makes go-redis throw away the pooled connections that died with the closed listener
+// (a command is retried on at most 4 of them before it fails).
+func (v *verifServer) drain() {
+	store := redis.New(v.s.Addr())
+	for round := 0; round < 4; round++ {
+		var wg sync.WaitGroup
+		for g := 0; g < 24; g++ {
+			wg.Add(1)
+			go func() {
+				defer wg.Done()
+				store.Exists("verif:drain")
+			}()
+		}
+		wg.Wait()
+	}
+}
+
+func verifEntry(s *miniredis.Miniredis, key string) []int64 {
+	if !s.Exists(key) {
+		return []int64{0, 0, 0}
+	}
+	str, err := s.Get(key)
+	if err != nil {
+		return []int64{1, -1, -1}
+	}
+	val, err := strconv.ParseInt(str, 10, 64)
+	if err != nil {
+		return []int64{1, -2, -2}
+	}
+	return []int64{1, val, int64(s.TTL(key) / time.Millisecond)}
+}
+
+func verifPeriod(v *verifServer, c verifCase) any {
+	s := v.s
+	store := redis.New(s.Addr())
+	prefix := fmt.Sprintf("p%d:", v.caseSeq)
+	lims := make([]*PeriodLimit, len(c.Lims))
+	for i, l := range c.Lims {
+		var opts []PeriodOption
+		if l.Align {
+			opts = append(opts, Align())
+		}
+		lims[i] = NewPeriodLimit(l.Period, l.Quota, store, prefix+strconv.Itoa(i)+":", opts...)
+	}
+	clock := c.T0
+	s.SetTime(time.UnixMilli(clock))
+	out := make([]map[string]any, 0, len(c.Ops))
+	for _, op := range c.Ops {
+		switch op.Op {
+		case "tick":
+			clock += op.Ms
+			s.SetTime(time.UnixMilli(clock))
+			s.FastForward(time.Duration(op.Ms) * time.Millisecond)
+			out = append(out, map[string]any{})
+		case "take":
+			pl := lims[op.Lim]
+			key := "k" + strconv.Itoa(op.Key)
+			if op.Down {
+				v.set(false, false, false)
+			}
+			now := time.Now()
+			_, off := now.Zone()
+			u0, e0 := now.Unix(), pl.calcExpireSeconds()
+			code, err := pl.Take(key)
+			e1, u1 := pl.calcExpireSeconds(), time.Now().Unix()
+			if op.Down {
+				v.set(true, true, false)
+			}
+			ec := 0
+			if err == ErrUnknownCode {
+				ec = 2
+			} else if err != nil {
+				ec = 1
+			}
+			out = append(out, map[string]any{"code": code, "err": ec, "ent": verifEntry(s, pl.keyPrefix+key),
+				"exp": []int64{u0, int64(off), int64(e0), u1, int64(e1)}})
+		case "conc":
+			pl := lims[op.Lim]
+			key := "k" + strconv.Itoa(op.Key)
+			e0 := pl.calcExpireSeconds()
+			var wg sync.WaitGroup
+			var counts [4]int64
+			var errs int64
+			start := make(chan struct{})
+			for g := 0; g < op.G; g++ {
+				wg.Add(1)
+				go func() {
+					defer wg.Done()
+					<-start
+					code, err := pl.Take(key)
+					if err != nil || code < 0 || code > 3 {
+						atomic.AddInt64(&errs, 1)
+						return
+					}
+					atomic.AddInt64(&counts[code], 1)
+				}()
+			}
+			close(start)
+			wg.Wait()
+			e1 := pl.calcExpireSeconds()
+			out = append(out, map[string]any{"codes": counts[:], "errs": errs, "ent": verifEntry(s, pl.keyPrefix+key),
+				"exp": []int64{0, 0, int64(e0), 0, int64(e1)}})
+		default:
+			out = append(out, map[string]any{"bad_op": op.Op})
+		}
+	}
+	return map[string]any{"ops": out}
+}
+
+func verifHeal(v *verifServer, tl *TokenLimiter) bool {
+	// the monitor goroutine pings every pingInterval of real time; wait for it only when it can succeed
+	tl.rescueLock.Lock()
+	started := tl.monitorStarted
+	tl.rescueLock.Unlock()
+	if !started || !v.pingUp || v.closed || v.stuck {
+		return true
+	}
+	deadline := time.Now().Add(3 * time.Second)
+	for time.Now().Before(deadline) {
+		tl.rescueLock.Lock()
+		started = tl.monitorStarted
+		tl.rescueLock.Unlock()
+		if !started && atomic.LoadUint32(&tl.redisAlive) == 1 {
+			return true
+		}
+		time.Sleep(2 * time.Millisecond)
+	}
+	v.stuck = true // do not wait again in this case: the monitor does not come back
+	return false
+}
+
+func verifToken(v *verifServer, c verifCase) any {
+	s := v.s
+	store := redis.New(s.Addr())
+	name := fmt.Sprintf("t%d", v.caseSeq)
+	var tl *TokenLimiter
+	if p, val := verifdrv.Catch(func() { tl = NewTokenLimiter(c.Rate, c.Burst, store, name) }); p {
+		return map[string]any{"new_panic": val}
+	}
+	clock := c.T0
+	s.SetTime(time.UnixMilli(clock))
+	out := make([]map[string]any, 0, len(c.Ops))
+	healed := true
+	snap := func(m map[string]any) map[string]any {
+		if !verifHeal(v, tl) {
+			healed = false
+		}
+		tl.rescueLock.Lock()
+		m["mon"] = tl.monitorStarted
+		tl.rescueLock.Unlock()
+		m["alive"] = atomic.LoadUint32(&tl.redisAlive)
+		if v.closed {
+			m["tok"], m["ts"] = []int64{-1, 0, 0}, []int64{-1, 0, 0}
+		} else {
+			m["tok"], m["ts"] = verifEntry(s, tl.tokenKey), verifEntry(s, tl.timestampKey)
+		}
+		return m
+	}
+	mkctx := func(kind int) (context.Context, context.CancelFunc) {
+		switch kind {
+		case 1:
+			ctx, cancel := context.WithCancel(context.Background())
+			cancel()
+			return ctx, cancel
+		case 2:
+			return context.WithDeadline(context.Background(), time.Now().Add(-time.Second))
+		}
+		return context.Background(), func() {}
+	}
+	for _, op := range c.Ops {
+		switch op.Op {
+		case "tick":
+			clock += op.Ms
+			if !v.closed {
+				s.SetTime(time.UnixMilli(clock))
+			}
+			s.FastForward(time.Duration(op.Ms) * time.Millisecond)
+			out = append(out, snap(map[string]any{}))
+		case "allow":
+			ctx, cancel := mkctx(op.Ctx)
+			ok := tl.AllowNCtx(ctx, time.UnixMilli(clock+op.Skew), op.N)
+			cancel()
+			out = append(out, snap(map[string]any{"ok": ok}))
+		case "conc":
+			var wg sync.WaitGroup
+			var granted int64
+			start := make(chan struct{})
+			now := time.UnixMilli(clock)
+			for g := 0; g < op.G; g++ {
+				wg.Add(1)
+				go func() {
+					defer wg.Done()
+					<-start
+					if tl.AllowN(now, op.N) {
+						atomic.AddInt64(&granted, 1)
+					}
+				}()
+			}
+			close(start)
+			wg.Wait()
+			out = append(out, snap(map[string]any{"granted": granted}))
+		case "fault":
+			v.set(op.Eval, op.Ping, op.Hard)
+			out = append(out, snap(map[string]any{}))
+		default:
+			out = append(out, map[string]any{"bad_op": op.Op})
+		}
+	}
+	// leave no monitor goroutine behind
+	v.set(true, true, false)
+	if !verifHeal(v, tl) {
+		healed = false
+	}
+	return map[string]any{"ops": out, "healed": healed, "tokfmt": tl.tokenKey, "tsfmt": tl.timestampKey}
+}
+
+// TestVerifDriver replays period/token limiter histories against miniredis with a steered server
+// clock (FastForward) and a scripted caller clock, and reports what the limiters answered together
+// with the Redis entries they left behind.
+func TestVerifDriver(t *testing.T) {
+	s, err := miniredis.Run()
+	if err != nil {
+		t.Fatal(err)
+	}
+	defer s.Close()
+	v := &verifServer{s: s, evalUp: true, pingUp: true}
+	verifdrv.Run(t, func(raw json.RawMessage) any {
+		var c verifCase
+		if err := json.Unmarshal(raw, &c); err != nil {
+			return map[string]any{"error": err.Error()}
+		}
+		v.caseSeq++
+		v.stuck = false
+		v.set(true, true, false)
+		s.FlushAll()
+		defer func() {
+			v.set(true, true, false)
+		}()
+		switch c.Kind {
+		case "period":
+			return verifPeriod(v, c)
+		case "token":
+			return verifToken(v, c)
+		}
+		return map[string]any{"error": "unknown kind " + c.Kind}
+	})
+}
